@@ -27,3 +27,8 @@ TEXT = {
         note="The frame table (harness/src/frame.rs, from SPEC-instructions.md) is trusted.",
     ),
 }
+TEXT["C08"] = dict(
+    technique="runtime monitoring: differential step monitor + direct API oracle over preorder flattening + metamorphic follow-up steps (INSERT/EXTRACT, POSITION/EXTRACT, DISCREPANCY symmetry)",
+    level="Exploration: thousands of random code trees (<= 14 points, depth <= 4, all atom kinds) with planted occurrences and near misses; every list-surgery instruction and every Item::* indexing function is compared with an independent preorder-flattening reference at every point index in [-2S,2S] and at MIN/MAX; the statement's equations are also checked as follow-up executions.",
+    note="Reference (refm.rs) trusted. CODE.MEMBER is judged only on the two implications every reading of its (copied) documentation shares; CODE.= on items that print alike but differ structurally is a don't-care.",
+)
